@@ -238,4 +238,23 @@ example : ∃ r, validateRequest ⟨65536, 100, 2 ^ 64⟩ true
     [(sMethod, [71, 69, 84]), (sScheme, sHttps), (sPath, [47]), (sAuthority, [97])] = .ok r ∧ BodyFits r [] :=
   ⟨_, rfl, rfl⟩
 
+/-- **Buffer exhaustion can only reject.** With the stream buffer modelled
+    (`store_pseudo_header` / `write_regular_header` / the cookie branch /
+    `handle_trailer` copy into a buffer of `cap` bytes and reject when it is
+    full): whatever the buffer size, a header list (resp. trailer block) that
+    is accepted is accepted with exactly the same result as with an unbounded
+    buffer — so every theorem above about accepted requests holds for every
+    buffer size; a too-small buffer never truncates, it rejects. -/
+theorem C03_storage_only_rejects (lim : Limits) (cap used : Nat) (es : Bool) (hl t : List (Bytes × Bytes)) (r : Req) :
+    (validateRequestS lim cap es hl = .ok r → validateRequest lim es hl = .ok r ∧ WF r) ∧
+    (handleTrailerS lim cap used es hl = .ok t → handleTrailer lim es hl = .ok t) :=
+  ⟨fun h => ⟨validateS_ok h, validate_wf lim es hl r (validateS_ok h)⟩, handleTrailerS_ok⟩
+
+/-- 20 bytes are needed (`GET`, `https`, `/`, `a`, `x: 1234567`): a 16-byte buffer rejects, a 24-byte one accepts -/
+example : (∃ e, validateRequestS ⟨65536, 100, 2 ^ 64⟩ 16 true
+      [(sMethod, [71, 69, 84]), (sScheme, sHttps), (sPath, [47]), (sAuthority, [97]), ([120], [49, 50, 51, 52, 53, 54, 55])] = .error e) ∧
+    (∃ r, validateRequestS ⟨65536, 100, 2 ^ 64⟩ 24 true
+      [(sMethod, [71, 69, 84]), (sScheme, sHttps), (sPath, [47]), (sAuthority, [97]), ([120], [49, 50, 51, 52, 53, 54, 55])] = .ok r) :=
+  ⟨⟨_, rfl⟩, ⟨_, rfl⟩⟩
+
 end Sozu.Headers
